@@ -604,3 +604,55 @@ Theorem afero_glob_wf_no_error : forall t pat, well_formed pat = true -> snd (af
 Proof.
   intros t pat H. apply afero_glob_wf_f; [lia|]. apply well_formed_wfs. exact H.
 Qed.
+
+(* ---------- what a well-formed Glob denotes ---------- *)
+Lemma glob_names_spec : forall dir file names m, wfs PTop file ->
+  afero_glob_names dir file names m =
+  (m ++ map (fun n => path_join [dir; n]) (filter (matches file) names), GNil).
+Proof.
+  intros dir file names m H. revert m.
+  induction names as [|n r IH]; intros m; cbn [afero_glob_names filter map].
+  - rewrite app_nil_r. reflexivity.
+  - pose proof (match_seg_wf file n (proj2 (well_formed_wfs file) H)) as Hm. unfold matches at 1.
+    destruct (match_seg file n) as [[|]|]; [|apply IH|contradiction].
+    rewrite IH. cbn [map]. rewrite <- app_assoc. reflexivity.
+Qed.
+
+Lemma glob1_spec : forall t dir file m, wfs PTop file ->
+  afero_glob1 t dir file m = (m ++ glob_level t dir file, GNil).
+Proof.
+  intros t dir file m H. unfold afero_glob1, glob_level.
+  destruct (lookup t dir) as [[|kids]|]; try (rewrite app_nil_r; reflexivity).
+  apply glob_names_spec. exact H.
+Qed.
+
+Lemma glob_over_spec : forall t file ds m, wfs PTop file ->
+  afero_glob_over t file ds m = (m ++ flat_map (fun d => glob_level t d file) ds, GNil).
+Proof.
+  intros t file ds m H. revert m. induction ds as [|d r IH]; intros m; cbn [afero_glob_over flat_map].
+  - rewrite app_nil_r. reflexivity.
+  - rewrite (glob1_spec t d file m H). rewrite IH. rewrite <- app_assoc. reflexivity.
+Qed.
+
+Lemma afero_glob_spec_f : forall fuel t q, length q < fuel -> wfs PTop q ->
+  afero_glob_f fuel t q = (glob_spec_f fuel t q, GNil).
+Proof.
+  induction fuel as [|f IH]; intros t q Hlen H; [lia|].
+  cbn [afero_glob_f glob_spec_f].
+  destruct (has_meta q) eqn:Hm; cbn [negb].
+  2:{ destruct (lookup t q); reflexivity. }
+  rewrite (surjective_pairing (path_split q)). rewrite afero_dir_is_clean_glob_path. cbn [fst snd].
+  set (dir := clean_glob_path (fst (path_split q))).
+  pose proof (wfs_file q H) as Hf.
+  destruct (has_meta dir) eqn:Hmd; cbn [negb].
+  2:{ rewrite (glob1_spec t dir _ [] Hf). reflexivity. }
+  pose proof (dir_shorter q Hmd) as Hsh. fold dir in Hsh.
+  rewrite (IH t dir) by (try lia; apply wfs_dir; exact H).
+  rewrite (glob_over_spec t _ _ [] Hf). reflexivity.
+Qed.
+
+Theorem afero_glob_denotes : forall t pat, well_formed pat = true ->
+  afero_glob t pat = (glob_spec t pat, GNil).
+Proof.
+  intros t pat H. apply afero_glob_spec_f; [lia|]. apply well_formed_wfs. exact H.
+Qed.
